@@ -76,6 +76,10 @@ func NewEmptyRecord(len int) Record {
 }
 
 func (r Record) GroupLen() int {
+	// A record of a table that has no columns has no cells.
+	if len(r) < 1 {
+		return 0
+	}
 	return len(r[0])
 }
 
